@@ -15,6 +15,7 @@ import (
 
 	"verifharness/gen"
 	"verifharness/mc"
+	"verifharness/props/c10"
 	"verifharness/props/reg"
 )
 
@@ -797,6 +798,9 @@ func Run(r *mc.Run) {
 		return true
 	})
 
+	// the library's own typed documents as struct values
+	c10.AddRemarshalScenario(r, r.Pick(1, 2))
+
 	// pass-through
 	known := [][2]string{{"Known1", "k one"}, {"Known-Two", "a, b"}, {"Known-3", "1:2.0-1"}}
 	unknown := [][2]string{{"X-Extra", "u1"}, {"Zeta", "u 2"}}
@@ -943,6 +947,9 @@ func Replay(scenario string, raw json.RawMessage) []*mc.Violation {
 			return checkTwice(scenario, in)
 		}
 		return nil
+	}
+	if scenario == c10.RemarshalScenario {
+		return c10.ReplayRemarshal(raw)
 	}
 	if scenario == "struct-lists" {
 		var in ListIn
